@@ -28,6 +28,7 @@ RULE = (
     ' Round 10: the consumer edits the yielded message after each step; every line of the alphabet is repeated later in the history.'
     ' Round 11: environment sweep (see C03), judged on outcome and registry.'
     ' Round 12: hidden-switch sweep; all 256 ids present themselves in one history; pass under `python -O`; eager task factory.'
+    " Round 13: `rx_after_idle` in the tour (the consumer's wait times out on a quiet network, then the line arrives while a new listener waits)."
 )
 ASSUMPTIONS = [
     "battery payloads in the definite class (plain decimal, no .5 tie, 0-100); other spellings are accepted either way",
